@@ -86,6 +86,27 @@ for pid in sorted(os.listdir(pbase)) if os.path.isdir(pbase) else []:
     out.append(f"| {pid} | {m['property']} | {esc(ns).replace('bibtexparser/', '')} | {esc(m['summary'])[:420]} | {runs} | {al} |")
 out.append(f"\n{ptot} non-breaking changes, {palarm} with an alarm (assessed in the last column).\n")
 
+out.append("## 12. Independent bug hunt on the unchanged tree (hunt/): findings and dispositions\n")
+out.append("Round h: 20 fresh sub-agents, one per property, given only the property text and a worktree of the unchanged repository, asked to REFUTE "
+           "the property with their own enumerators and oracles (deliverables per property in `hunt/Cxx/`: findings.json, repro.py, coverage.md). "
+           "Every reported mechanism was triaged against the literal statement: *fixed* = genuine defect, the check was first widened until it fired "
+           "on the unchanged tree, then the repository was repaired; *known* = genuine, recorded in known_findings.json; *reading* = depends on a "
+           "reading of the statement that the check does not adopt (reason given); *outside* = outside the quantifier (reason given). "
+           "Where a genuine finding had been hidden by a carve-out of my own generator or oracle, the disposition says so.\n")
+out.append("| finding | hunter's confidence | mechanism (hunter's words, shortened) | disposition |")
+out.append("|---|---|---|---|")
+hb = os.path.join(HERE, "hunt")
+disp = json.load(open(os.path.join(hb, "dispositions.json"))) if os.path.exists(os.path.join(hb, "dispositions.json")) else {}
+cnt = {}
+for pid in sorted(x for x in os.listdir(hb) if x.startswith("C")) if os.path.isdir(hb) else []:
+    fs = json.load(open(os.path.join(hb, pid, "findings.json")))
+    for j, f in enumerate(fs, 1):
+        k = f"{pid}-{j}"
+        dv = disp.get(k, ["?", "?"])
+        cnt[dv[0].split(" ")[0]] = cnt.get(dv[0].split(" ")[0], 0) + 1
+        out.append(f"| {k} | {esc(f.get('confidence', '?'))[:12]} | {esc(f['mechanism'])[:260]} | **{esc(dv[0])}** - {esc(dv[1])} |")
+out.append("\n" + ", ".join(f"{v} {k}" for k, v in sorted(cnt.items())) + ".\n")
+
 text = "\n".join(out)
 dp = os.path.join(HERE, "DESIGN.md")
 s = open(dp).read()
